@@ -8,7 +8,7 @@ from contracts.state import _state_inv_of, now_info
 from pyvc import specfn
 from pyvc.contracts import REG, contract
 from pyvc.interp import extern
-from pyvc.types import SV, And, Implies, Ite, Not, Or, TBool, TInt, TList, TOpt, TRec, TStr, lift
+from pyvc.types import SV, And, Implies, Ite, Not, Or, TBool, TInt, TList, TOpt, TRec, TSet, TStr, lift
 from specs.heap import FileSystem, HashFileDB, LocalHashFileDB, O
 from specs.records import HashInfo, Meta
 from specs.state import FileInfo
@@ -319,7 +319,8 @@ def _added_only_requested(c):
                SV(z3.ForAll([o.t], Implies(And(_named(c), lfiles(c.h).contains(O(path, o)), Not(lfiles(c.h0).contains(O(path, o)))),
                                            first(cur(c.h0.get("HashFileDB.fs", c.self), c.h0.get("HashFileDB.hash_name", c.self), O(path, o))) == first(o)).t), TBool),
                # copies (no hard links) arrive unprotected; protection of everything else is untouched
-               Implies(Not(c.hardlink), SV(z3.ForAll([o.t], (l444(c.h).contains(O(path, o)) == l444(c.h0).contains(O(path, o))).t), TBool)))
+               # what is placed is unprotected unless it is a hard link to a write-protected source; protection of everything else is untouched
+               Implies(Not(linked_from_protected(c)), SV(z3.ForAll([o.t], (l444(c.h).contains(O(path, o)) == l444(c.h0).contains(O(path, o))).t), TBool)))
 
 
 contract(
@@ -330,16 +331,27 @@ contract(
     ensures=_added_only_requested,
     assumed=True,
     doc="ObjectDB.add: places (some of) the requested objects at oid_to_path(oid) via tmp-name + rename, removes nothing, creates "
-        "nothing else that parses as an object; copies arrive unprotected (with hardlink=True the mode is the source's); "
+        "nothing else that parses as an object; what is placed arrives unprotected unless it is a hard link to a write-protected source; "
         "on_error callbacks are not modelled here (they only touch the caller's state)",
 )
 
 
+def linked_from_protected(c):
+    """the only case the clauses below do not cover: the objects are HARD LINKS and some source file is write-protected -- a link
+    shares inode and mode with its source, so it arrives write-protected, and a local store trusts that mode (F-C07a)"""
+    # "some source file is write-protected" = EXISTS i. path[i] in l444 at entry.  Kept opaque (an uninterpreted predicate of the
+    # entry protection set and the source paths): no proof step needs to look inside, and the quantifier made 40 queries time out
+    # (opaque also because caller and callee must name the same fact: it is a property of THIS call's sources, keyed by the source
+    # filesystem object that both see unchanged)
+    f = specfn.ufn("some_source_protected", z3.IntSort(), z3.BoolSort())
+    return And(c.hardlink, SV(f(c.fs.t), TBool))
+
+
 def crash_inv(c):
     """no mismatching object is ever write-protected unless it was so before the call.
-    Claimed for copies (hardlink=False): a hard link shares the mode of its source, so a write-protected corrupt SOURCE
-    yields a write-protected corrupt object -- observed as F-C07a, outside the clause claimed here (DESIGN)."""
-    return Or(c.hardlink, _crash_inv(c))
+    Claimed for copies and for hard links to sources that are not write-protected: a hard link shares the mode of its source, so a
+    write-protected corrupt SOURCE yields a write-protected corrupt object -- observed as F-C07a, outside the statement (DESIGN A.4)."""
+    return Or(linked_from_protected(c), _crash_inv(c))
 
 
 def _crash_inv(c):
@@ -383,7 +395,7 @@ def _loop_post(c):  # `for o, cache_path in oid_cache_paths.items()`: check then
     j = SV(z3.Int("j!lp"), TInt)
     path = c.h0.get("HashFileDB.path", c.self)
     ver = lift(c.engine.truth(c.loc.verify), TBool)
-    done = SV(z3.ForAll([j.t], Implies(And(j >= 0, j < c.idx, ver, Not(c.hardlink)),
+    done = SV(z3.ForAll([j.t], Implies(And(j >= 0, j < c.idx, ver, Not(linked_from_protected(c))),
                                        Implies(lfiles(c.h).contains(O(path, c.oid[j].val)), Or(_good_o(c, c.oid[j].val), l444(c.h0).contains(O(path, c.oid[j].val))))).t,
                        patterns=[c.oid[j].t]), TBool)
     same = SV(z3.ForAll([j.t], Implies(And(j >= 0, j < c.oid.length()), And(K[j] == c.oid[j], c.loc.oid_cache_paths[c.oid[j]] == O(path, c.oid[j].val))).t,
@@ -418,7 +430,7 @@ def _hint_path(c):
     pth = O(c.h0.get("HashFileDB.path", c.self), c.loc.o.val)
     return And(c.loc.cache_path == pth,
                # ... and that object, if it is (or gets) write-protected, is intact or was protected before the call
-               Or(c.hardlink, Not(lift(c.engine.truth(c.loc.verify), TBool)), _good_o(c, c.loc.o.val), l444(c.h0).contains(pth)))
+               Or(linked_from_protected(c), Not(lift(c.engine.truth(c.loc.verify), TBool)), _good_o(c, c.loc.o.val), l444(c.h0).contains(pth)))
 
 
 def _verify0(c):
@@ -442,7 +454,7 @@ def _add_post(c):
         crash_inv(c),
         _readonly_prefix(c, c.oid.length()),
         # C07: a store configured to verify never retains a mismatching (unprotected) object after an add
-        Implies(And(verify, Not(c.hardlink)),
+        Implies(And(verify, Not(linked_from_protected(c))),
                 SV(z3.ForAll([j.t], Implies(And(j >= 0, j < c.oid.length(), lfiles(c.h).contains(O(path, c.oid[j].val))),
                                             Or(_good_o(c, c.oid[j].val), l444(c.h0).contains(O(path, c.oid[j].val)))).t, patterns=[c.oid[j].t]), TBool)),
     )
